@@ -36,6 +36,7 @@ var swaps = map[token.Token][]token.Token{
 
 func main() {
 	repo := flag.String("repo", "/repo", "subject")
+	mode := flag.String("mode", "token", "token: operator / statement mutations; sibling: an identifier replaced by its sibling (copy-paste slips)")
 	flag.Parse()
 	var files []string
 	for _, d := range []string{"", "post"} {
@@ -76,6 +77,9 @@ func main() {
 				}
 			}
 			emit := func(kind string, s, e int, repl string) {
+				if (*mode == "sibling") != strings.HasPrefix(kind, "sibling:") {
+					return
+				}
 				_ = enc.Encode(mut{File: rel, Line: lineOf(src, s), Func: name, Kind: kind, Start: s, End: e, New: repl, Old: string(src[s:e])})
 			}
 			ast.Inspect(fd.Body, func(n ast.Node) bool {
@@ -138,6 +142,9 @@ func main() {
 						}
 					}
 				case *ast.Ident:
+					for _, to := range siblings[x.Name] {
+						emit("sibling:"+x.Name+"->"+to, off(x.Pos()), off(x.End()), to)
+					}
 					if x.Name == "true" || x.Name == "false" {
 						s, e := off(x.Pos()), off(x.End())
 						if x.Name == "true" {
@@ -163,6 +170,56 @@ func main() {
 				}
 				return true
 			})
+		}
+	}
+}
+
+// siblings: identifiers that differ by one notion (min/max, error/warning, path/in, one keyword for another) and
+// have the same type where they occur often enough for the substitution to compile.
+var siblings = map[string][]string{}
+
+func init() {
+	groups := [][]string{
+		{"AddErrors", "AddWarnings"}, {"MergeAsErrors", "MergeAsWarnings"}, {"Merge", "MergeAsWarnings", "MergeAsErrors"},
+		{"HasErrors", "HasWarnings", "HasErrorsOrWarnings"}, {"IsValid", "HasErrors"},
+		{"Minimum", "Maximum"}, {"MinLength", "MaxLength"}, {"MinItems", "MaxItems"}, {"MinProperties", "MaxProperties"},
+		{"ExclusiveMinimum", "ExclusiveMaximum"}, {"MinimumNativeType", "MaximumNativeType"}, {"MinimumInt", "MaximumInt"}, {"MinimumUint", "MaximumUint"},
+		{"MinimumInt", "MinimumUint"}, {"MaximumInt", "MaximumUint"}, {"MultipleOfInt", "MultipleOfUint"},
+		{"ExceedsMinimum", "ExceedsMaximum"}, {"TooShort", "TooLong"}, {"TooFewItems", "TooManyItems"}, {"TooFewProperties", "TooManyProperties"},
+		{"Path", "In"}, {"path", "in"}, {"Name", "In"},
+		{"anyOfValidators", "oneOfValidators", "allOfValidators"}, {"validateAnyOf", "validateOneOf", "validateAllOf"},
+		{"AnyOf", "OneOf", "AllOf"}, {"keepResultAnyOf", "keepResultOneOf", "keepResultAllOf"},
+		{"Properties", "PatternProperties"}, {"AdditionalProperties", "AdditionalItems"}, {"Items", "AdditionalItems"},
+		{"Default", "Example"}, {"jsonDefault", "swaggerExample", "jsonProperties"}, {"swaggerExample", "swaggerExamples"}, {"jsonItems", "jsonType"},
+		{"isDefault", "isExample", "isProperties"},
+		{"integerType", "numberType"}, {"stringType", "numberType"}, {"arrayType", "objectType"}, {"booleanType", "stringType"},
+		{"Int", "Uint"}, {"Int64", "Uint64"}, {"Float32", "Float64"}, {"Int32", "Int64"}, {"Uint32", "Uint64"}, {"int64", "uint64"},
+		{"asInt64", "asUint64", "asFloat64"}, {"isIntKind", "isUintKind", "isFloatKind"},
+		{"Slice", "Map"}, {"Ptr", "Interface"}, {"String", "Slice"},
+		{"recycleValidators", "recycleResult"}, {"ContinueOnErrors", "StrictPathParamUniqueness"}, {"SkipSchemataResult", "EnableObjectArrayTypeCheck", "EnableArrayMustHaveItemsCheck"},
+		{"skipSchemataResult", "EnableObjectArrayTypeCheck", "EnableArrayMustHaveItemsCheck"},
+		{"fieldSchemata", "itemSchemata"}, {"cachedFieldSchemata", "cachedItemSchemata"}, {"one", "multiple"},
+		{"Errors", "Warnings"}, {"firstSuccess", "bestFailures"}, {"mainResult", "result"}, {"res", "red"}, {"errs", "warnings"},
+		{"BorrowResult", "BorrowSchema"}, {"data", "val"}, {"key", "value"}, {"k", "v"}, {"i", "j"}, {"method", "path"},
+		{"param", "op"}, {"schema", "sch"}, {"Schema", "Items"}, {"Required", "ReadOnly"}, {"Headers", "Examples"},
+		{"propertyMatch", "patternMatch", "additionalPropertiesMatch"}, {"hasBody", "hasForm"}, {"bodyParams", "firstBodyParam"},
+		{"fromPath", "fromOperation"}, {"av", "bv"}, {"ak", "bk"}, {"a", "b"}, {"s", "t"}, {"sr", "tr"}, {"ssize", "tsize"},
+	}
+	for _, g := range groups {
+		for _, a := range g {
+			for _, b := range g {
+				if a != b {
+					dup := false
+					for _, x := range siblings[a] {
+						if x == b {
+							dup = true
+						}
+					}
+					if !dup {
+						siblings[a] = append(siblings[a], b)
+					}
+				}
+			}
 		}
 	}
 }
